@@ -586,6 +586,12 @@ pub struct World {
     pub store: Rc<RefCell<RawMap>>,
     pub deploy_height: u64,
     pub deploy_time: u64,
+    /// raw engine keys that exist when the deployment is complete (long-lived records)
+    pub base_keys: std::collections::BTreeSet<Vec<u8>>,
+    /// positions are read through the public Position query instead of the raw dump (set when the two disagree,
+    /// e.g. after a change of the storage layout)
+    pub pos_by_query: std::cell::Cell<bool>,
+    pub snap_count: std::cell::Cell<u64>,
 }
 
 fn u(v: u128) -> Uint128 {
@@ -808,6 +814,9 @@ impl World {
             store,
             deploy_height: 0,
             deploy_time: 0,
+            base_keys: Default::default(),
+            pos_by_query: std::cell::Cell::new(false),
+            snap_count: std::cell::Cell::new(0),
         };
         w.deploy_height = w.height();
         w.deploy_time = w.now();
@@ -833,6 +842,7 @@ impl World {
         // histories start in the block after deployment (the vAMM's instantiate snapshot belongs to the
         // deployment block; trading in that very block is not an execution a deployed system has)
         w.advance(1, 6);
+        w.base_keys = w.raw_dump(&w.engine).into_iter().map(|(k, _)| k).collect();
         w
     }
 
@@ -1203,6 +1213,34 @@ impl World {
             .unwrap_or(false)
     }
 
+    /// positions of every tracked account on every vAMM of the deployment, through the engine's public query
+    pub fn positions_by_query(&self) -> Vec<Pos> {
+        let mut out = vec![];
+        let accts = self.tracked_accounts();
+        for vi in 0..self.vamms.len() {
+            for t in &accts {
+                if let Some(p) = self.position(vi, t) {
+                    if p.vamm.as_str() != self.vamms[vi].as_str() || p.trader.as_str() != t.as_str() {
+                        continue;
+                    }
+                    out.push(Pos {
+                        vamm: vi,
+                        trader: p.trader.to_string(),
+                        long_dir: p.direction == vm::Direction::AddToAmm,
+                        size: int_to_i128(&p.size),
+                        size_neg_flag: p.size.negative,
+                        margin: p.margin.u128(),
+                        notional: p.notional.u128(),
+                        ckpt: int_to_i128(&p.last_updated_premium_fraction),
+                        block: p.block_number,
+                    });
+                }
+            }
+        }
+        out.sort_by(|a, b| (a.vamm, &a.trader).cmp(&(b.vamm, &b.trader)));
+        out
+    }
+
     pub fn raw_dump(&self, contract: &Addr) -> Vec<(Vec<u8>, Vec<u8>)> {
         self.app.dump_wasm_raw(contract)
     }
@@ -1244,7 +1282,9 @@ impl World {
             t.total_supply.u128()
         });
 
-        // engine raw storage
+        // engine raw storage. Records are recognised by their *shape* (and, for the in-flight records, also by
+        // the key names of the pinned commit), never by key name alone: renaming a storage key is not a change of
+        // behaviour and must neither hide positions from the monitors nor make them see residue.
         let dump = self.raw_dump(&self.engine);
         let mut pos = vec![];
         let mut unknown = 0usize;
@@ -1253,37 +1293,60 @@ impl World {
         let mut tmp_liq = false;
         let mut paused = false;
         for (k, v) in &dump {
+            if let Ok(p) = serde_json::from_slice::<eng::Position>(v) {
+                // (a record that parses as the repository's own Position type is a position)
+                match self.vamm_idx(p.vamm.as_str()) {
+                    Some(idx) => pos.push(Pos {
+                        vamm: idx,
+                        trader: p.trader.to_string(),
+                        long_dir: p.direction == vm::Direction::AddToAmm,
+                        size: int_to_i128(&p.size),
+                        size_neg_flag: p.size.negative,
+                        margin: p.margin.u128(),
+                        notional: p.notional.u128(),
+                        ckpt: int_to_i128(&p.last_updated_premium_fraction),
+                        block: p.block_number,
+                    }),
+                    None => unknown += 1,
+                }
+                continue;
+            }
             if k.starts_with(b"\x00\x08position") {
-                match serde_json::from_slice::<eng::Position>(v) {
-                    Ok(p) => match self.vamm_idx(p.vamm.as_str()) {
-                        Some(idx) => pos.push(Pos {
-                            vamm: idx,
-                            trader: p.trader.to_string(),
-                            long_dir: p.direction == vm::Direction::AddToAmm,
-                            size: int_to_i128(&p.size),
-                            size_neg_flag: p.size.negative,
-                            margin: p.margin.u128(),
-                            notional: p.notional.u128(),
-                            ckpt: int_to_i128(&p.last_updated_premium_fraction),
-                            block: p.block_number,
-                        }),
-                        None => unknown += 1,
-                    },
-                    Err(_) => unknown += 1,
-                }
-            } else if k.as_slice() == b"\x00\x08tmp-swap" {
+                unknown += 1;
+                continue;
+            }
+            let val = serde_json::from_slice::<serde_json::Value>(v).ok();
+            let has = |f: &str| val.as_ref().map(|x| x.get(f).is_some()).unwrap_or(false);
+            if k.as_slice() == b"\x00\x08tmp-swap" || (has("fees_paid") && has("margin_to_vault")) {
                 tmp_swap = true;
-            } else if k.as_slice() == b"\x00\x0asent-funds" {
+            } else if k.as_slice() == b"\x00\x0asent-funds" || (has("asset") && has("required")) {
                 sent_funds = true;
-            } else if k.as_slice() == b"\x00\x0etmp-liquidator" {
+            } else if k.as_slice() == b"\x00\x0etmp-liquidator"
+                || (!self.base_keys.is_empty() && !self.base_keys.contains(k) && val.as_ref().map(|x| x.is_string()).unwrap_or(false))
+            {
+                // a bare address string that was not there when the deployment completed (owner / pauser records
+                // exist from instantiation on; everything else the engine creates later is an object)
                 tmp_liq = true;
-            } else if k.as_slice() == b"\x00\x05state" {
-                if let Ok(val) = serde_json::from_slice::<serde_json::Value>(v) {
-                    paused = val.get("pause").and_then(|p| p.as_bool()).unwrap_or(false);
-                }
+            } else if has("pause") && has("open_interest_notional") {
+                paused = val.as_ref().and_then(|x| x.get("pause")).and_then(|p| p.as_bool()).unwrap_or(false);
             }
         }
         pos.sort_by(|a, b| (a.vamm, &a.trader).cmp(&(b.vamm, &b.trader)));
+        // cross-check the discovery against the public Position query now and then (and whenever nothing was found);
+        // if they ever disagree the public query is what the monitors are given from then on
+        let n = self.snap_count.get();
+        self.snap_count.set(n + 1);
+        if !self.pos_by_query.get() && (n % 97 == 0 || pos.is_empty()) {
+            let q = self.positions_by_query();
+            let known: Vec<&Pos> = pos.iter().collect();
+            if q.len() != known.len() || q.iter().zip(known.iter()).any(|(a, b)| a != *b) {
+                self.pos_by_query.set(true);
+            }
+        }
+        if self.pos_by_query.get() {
+            pos = self.positions_by_query();
+            unknown = 0;
+        }
 
         let ec: eng::ConfigResponse = self.q_engine(&eng::QueryMsg::Config {}).unwrap();
         let es: eng::StateResponse = self.q_engine(&eng::QueryMsg::State {}).unwrap();
